@@ -1,9 +1,379 @@
 package main
 
-// fsModel is the in-memory file-system model used by the C17/C18 harnesses (see fsmodel in DESIGN §2.7).
-type fsModel struct{}
+import (
+	"fmt"
+	"go/types"
+	"path/filepath"
+	"sort"
+)
 
-func (f *fsModel) write(x *Exec, args []Value) Value { unsupported("fs model not enabled"); return nil }
+// fsModel is the in-memory file-system model (DESIGN §2.7): name -> bytes; rename atomic; data accepted by
+// Write survives the death of the process; no fsync modelling. It carries an operation counter, an optional
+// crash index (the process "dies" just before that operation) and an optional failing write.
+type fsModel struct {
+	files     []*fsFile
+	handles   []*fsHandle
+	ops       []fsOp
+	crashAt   int // -1: never
+	failWrite int // index among Write operations that fails; -1: none
+	nWrites   int
+	tmpSeq    int
+	crashed   bool
+}
+
+type fsFile struct {
+	path Str
+	data []Value
+	gone bool
+}
+
+type fsHandle struct {
+	file   *fsFile
+	pos    int
+	closed bool
+	name   Str
+	write  bool
+}
+
+type fsOp struct {
+	Kind string
+	Path Str
+}
+
+func newFS() *fsModel { return &fsModel{crashAt: -1, failWrite: -1} }
+
+var osFilePtr, osPathErrorPtr types.Type
+
+func (x *Exec) fileType() types.Type {
+	if osFilePtr == nil {
+		for _, p := range x.prog.AllPackages() {
+			if p.Pkg.Path() == "os" {
+				if tn := p.Type("File"); tn != nil {
+					osFilePtr = types.NewPointer(tn.Type())
+				}
+			}
+		}
+	}
+	return osFilePtr
+}
+
+type fsCrash struct{}
+
+// step counts one file-system operation; at the crash index the process dies: a Go panic carrying the
+// sentinel string "verif: process killed" unwinds to the harness (which must not be recovered by the code
+// under test; repl.AutoSave has no recover).
+func (f *fsModel) step(x *Exec, kind string, path Str) {
+	if f.crashAt >= 0 && len(f.ops) == f.crashAt {
+		f.crashed = true
+		panic(goPanic{msg: "verif: process killed", val: Iface{T: types.Typ[types.String], V: Str{S: "verif: process killed"}}, site: "fs-model"})
+	}
+	f.ops = append(f.ops, fsOp{kind, path})
+}
+
+func cleanPath(s Str) Str {
+	if s.Sym == nil && s.S != "" {
+		return Str{S: filepath.Clean(s.S)}
+	}
+	return s
+}
+
+// find locates an existing file by path (forking on symbolic equality).
+func (f *fsModel) find(x *Exec, path Str) *fsFile {
+	path = cleanPath(path)
+	for _, fl := range f.files {
+		if fl.gone {
+			continue
+		}
+		e := x.strEq(fl.path, path)
+		if e.IsFalse() {
+			continue
+		}
+		if x.branch(e) {
+			return fl
+		}
+	}
+	return nil
+}
+
+func (f *fsModel) newHandle(x *Exec, fl *fsFile, name Str, write bool) Value {
+	f.handles = append(f.handles, &fsHandle{file: fl, name: name, write: write})
+	var cell Value = Struct{mkI64(int64(len(f.handles) - 1))}
+	return Ptr{&cell}
+}
+
+func (f *fsModel) handle(v Value) *fsHandle {
+	p, ok := v.(Ptr)
+	if !ok || p.P == nil {
+		goPanicf("invalid memory address or nil pointer dereference")
+	}
+	s, ok := (*p.P).(Struct)
+	if !ok || len(s) != 1 {
+		unsupported("operation on a real *os.File (os.Stdin/Stdout) under the fs model")
+	}
+	return f.handles[int(s[0].(Int).conc())]
+}
+
+func (f *fsModel) create(x *Exec, name Str) Value {
+	f.step(x, "create", name)
+	fl := f.find(x, name)
+	if fl == nil {
+		fl = &fsFile{path: cleanPath(name)}
+		f.files = append(f.files, fl)
+	}
+	fl.data = nil // truncate
+	return f.newHandle(x, fl, name, true)
+}
+
+func (f *fsModel) write(x *Exec, args []Value) Value {
+	h := f.handle(args[0])
+	var data []Value
+	switch a := args[1].(type) {
+	case Slice:
+		data = a.Data
+	case Str:
+		data = strToBytes(a)
+	}
+	f.step(x, "write", h.name)
+	if h.closed {
+		return ret2(mkI64(0), x.mkError("write "+describe(h.name)+": file already closed"))
+	}
+	if !h.write {
+		return ret2(mkI64(0), x.mkError("write "+describe(h.name)+": bad file descriptor"))
+	}
+	idx := f.nWrites
+	f.nWrites++
+	if idx == f.failWrite {
+		// a failing write may have transferred a prefix of the data: half of it
+		n := len(data) / 2
+		h.file.data = append(append([]Value{}, h.file.data...), data[:n]...)
+		return ret2(mkI64(int64(n)), x.mkError("write "+describe(h.name)+": no space left on device"))
+	}
+	h.file.data = append(append([]Value{}, h.file.data...), data...)
+	return ret2(mkI64(int64(len(data))), Iface{})
+}
+
 func (f *fsModel) intrinsic(x *Exec, name string, args []Value) (Value, bool) {
+	switch name {
+	case "os.Create":
+		return ret2(f.create(x, args[0].(Str)), Iface{}), true
+	case "os.Open":
+		nm := args[0].(Str)
+		f.step(x, "open", nm)
+		fl := f.find(x, nm)
+		if fl == nil {
+			return ret2(Ptr{}, x.notExist("open", nm)), true
+		}
+		return ret2(f.newHandle(x, fl, nm, false), Iface{}), true
+	case "os.CreateTemp":
+		dir, pat := args[0].(Str), concStr(args[1])
+		f.tmpSeq++
+		base := pat
+		for i := len(pat) - 1; i >= 0; i-- {
+			if pat[i] == '*' {
+				base = pat[:i] + fmt.Sprintf("%09d", 424242+f.tmpSeq) + pat[i+1:]
+				break
+			}
+		}
+		if base == pat {
+			base = pat + fmt.Sprintf("%09d", 424242+f.tmpSeq)
+		}
+		d := concStr(dir)
+		if d == "" {
+			d = "/tmp"
+		}
+		nm := Str{S: d + "/" + base}
+		return ret2(f.create(x, nm), Iface{}), true
+	case "os.Rename":
+		from, to := args[0].(Str), args[1].(Str)
+		f.step(x, "rename", to)
+		src := f.find(x, from)
+		if src == nil {
+			return x.notExist("rename", from), true
+		}
+		if dst := f.find(x, to); dst != nil && dst != src {
+			dst.gone = true
+		}
+		src.path = cleanPath(to)
+		return Iface{}, true
+	case "os.Remove":
+		nm := args[0].(Str)
+		f.step(x, "remove", nm)
+		fl := f.find(x, nm)
+		if fl == nil {
+			return x.notExist("remove", nm), true
+		}
+		fl.gone = true
+		return Iface{}, true
+	case "os.WriteFile":
+		nm := args[0].(Str)
+		h := f.create(x, nm)
+		r := f.write(x, []Value{h, args[1]}).(Tuple)
+		return r[1], true
+	case "os.ReadFile":
+		nm := args[0].(Str)
+		f.step(x, "open", nm)
+		fl := f.find(x, nm)
+		if fl == nil {
+			return ret2(Slice{Nil: true}, x.notExist("open", nm)), true
+		}
+		return ret2(Slice{Data: append([]Value{}, fl.data...)}, Iface{}), true
+	case "(*os.File).Close":
+		h := f.handle(args[0])
+		if h.closed {
+			return x.mkError("close " + describe(h.name) + ": file already closed"), true
+		}
+		h.closed = true
+		return Iface{}, true
+	case "(*os.File).Name":
+		return f.handle(args[0]).name, true
+	case "(*os.File).Sync":
+		f.step(x, "sync", f.handle(args[0]).name)
+		return Iface{}, true
+	case "(*os.File).Read":
+		h := f.handle(args[0])
+		buf := args[1].(Slice)
+		if h.pos >= len(h.file.data) {
+			return ret2(mkI64(0), x.eofError()), true
+		}
+		n := len(h.file.data) - h.pos
+		if n > len(buf.Data) {
+			n = len(buf.Data)
+		}
+		for i := 0; i < n; i++ {
+			x.store(&buf.Data[i], h.file.data[h.pos+i])
+		}
+		h.pos += n
+		return ret2(mkI64(int64(n)), Iface{}), true
+	case "io.ReadAll":
+		if i, ok := args[0].(Iface); ok && i.T != nil && x.identical(i.T, x.fileType()) {
+			h := f.handle(i.V)
+			d := append([]Value{}, h.file.data[h.pos:]...)
+			h.pos = len(h.file.data)
+			return ret2(Slice{Data: d}, Iface{}), true
+		}
+	}
+	return nil, false
+}
+
+func (x *Exec) notExist(op string, nm Str) Value {
+	// os.ErrNotExist identity matters for errors.Is(err, os.ErrNotExist): return that very value
+	if v := x.wellKnownErr("os", "ErrNotExist"); v != nil {
+		return v
+	}
+	return x.mkError(op + " " + describe(nm) + ": no such file or directory")
+}
+
+func (x *Exec) eofError() Value {
+	if v := x.wellKnownErr("io", "EOF"); v != nil {
+		return v
+	}
+	return x.mkError("EOF")
+}
+
+// wellKnownErr returns the value of an exported error variable, creating a stable sentinel if the package
+// was not initialised by the executor.
+func (x *Exec) wellKnownErr(pkg, name string) Value {
+	key := pkg + "." + name
+	if x.sentinels == nil {
+		x.sentinels = map[string]Value{}
+	}
+	if v, ok := x.sentinels[key]; ok {
+		return v
+	}
+	for _, p := range x.prog.AllPackages() {
+		if p.Pkg.Path() != pkg {
+			continue
+		}
+		g := p.Var(name)
+		if g == nil {
+			return nil
+		}
+		cell := x.global(g)
+		if i, ok := (*cell).(Iface); ok && i.T != nil {
+			x.sentinels[key] = i
+			return i
+		}
+		v := x.mkError(key)
+		saved := x.logUndo
+		x.logUndo = false
+		*cell = v
+		x.logUndo = saved
+		x.sentinels[key] = v
+		return v
+	}
+	return nil
+}
+
+// harness-visible API of the model
+
+func (x *Exec) fsAPI(name string, args []Value) (Value, bool) {
+	switch name {
+	case "vFSEnable":
+		x.fs = newFS()
+		x.stubsHit["file-system model (os.Create/Open/CreateTemp/Rename/WriteFile, (*os.File).Write/Close/Name/Read, io.ReadAll)"] = true
+		return nil, true
+	case "vFSWriteFile":
+		if x.fs == nil {
+			x.fs = newFS()
+		}
+		fl := x.fs.find(x, args[0].(Str))
+		if fl == nil {
+			fl = &fsFile{path: cleanPath(args[0].(Str))}
+			x.fs.files = append(x.fs.files, fl)
+		}
+		fl.data = strToBytes(args[1].(Str))
+		return nil, true
+	case "vFSList":
+		var d []Value
+		if x.fs != nil {
+			var conc []string
+			var sym []Value
+			for _, fl := range x.fs.files {
+				if fl.gone {
+					continue
+				}
+				if fl.path.Sym == nil {
+					conc = append(conc, fl.path.S)
+				} else {
+					sym = append(sym, fl.path)
+				}
+			}
+			sort.Strings(conc)
+			for _, c := range conc {
+				d = append(d, Str{S: c})
+			}
+			d = append(d, sym...)
+		}
+		if d == nil {
+			return Slice{Nil: true}, true
+		}
+		return Slice{Data: d}, true
+	case "vFSContent":
+		if x.fs == nil {
+			return ret2(Str{}, Bool{}), true
+		}
+		fl := x.fs.find(x, args[0].(Str))
+		if fl == nil {
+			return ret2(Str{}, Bool{}), true
+		}
+		return ret2(bytesToStr(append([]Value{}, fl.data...)), Bool{C: true}), true
+	case "vFSCrashAt":
+		x.fs.crashAt = len(x.fs.ops) + int(args[0].(Int).conc())
+		return nil, true
+	case "vFSFailWriteAt":
+		x.fs.failWrite = x.fs.nWrites + int(args[0].(Int).conc())
+		return nil, true
+	case "vFSNumOps":
+		if x.fs == nil {
+			return mkI64(0), true
+		}
+		return mkI64(int64(len(x.fs.ops))), true
+	case "vFSOpKind":
+		return Str{S: x.fs.ops[int(args[0].(Int).conc())].Kind}, true
+	case "vFSOpPath":
+		return x.fs.ops[int(args[0].(Int).conc())].Path, true
+	case "vFSCrashed":
+		return Bool{C: x.fs != nil && x.fs.crashed}, true
+	}
 	return nil, false
 }
